@@ -259,12 +259,18 @@ fn skip_ws(d: &[u8], from: usize) -> usize {
 }
 
 fn prefix_lemma<const N: usize>(data: [u8; N], k: usize) {
+    prefix_lemma_opt::<N>(data, k, true)
+}
+/// `frame_in_prefix`: whether a proper prefix of the harness's inputs can hold a whole frame at all
+/// (the vacuity witness "prefix already holds a frame" is only demanded where it can)
+fn prefix_lemma_opt<const N: usize>(data: [u8; N], k: usize, frame_in_prefix: bool) {
     use std::mem::ManuallyDrop;
     let mut p_pre = ManuallyDrop::new(RespParser { buffer: data[..k].to_vec(), position: 0 });
     let mut p_all = ManuallyDrop::new(RespParser { buffer: data.to_vec(), position: 0 });
     let r_pre = ManuallyDrop::new(p_pre.parse());
     let r_all = ManuallyDrop::new(p_all.parse());
-    kani::cover!(matches!(&*r_pre, Ok(Some(_))), "prefix already holds a frame");
+    kani::cover!(!frame_in_prefix || matches!(&*r_pre, Ok(Some(_))), "prefix already holds a frame");
+    kani::cover!(frame_in_prefix || matches!(&*r_all, Ok(Some(_))), "the whole input holds a frame");
     kani::cover!(matches!(&*r_pre, Ok(None)), "prefix incomplete");
     match (&*r_pre, &*r_all) {
         (Ok(Some(f)), Ok(Some(g))) => {
@@ -354,7 +360,8 @@ macro_rules! prefix_harness2 {
             data[1] = $second;
             let mut k = 1;
             while k < $n {
-                prefix_lemma::<$n>(data, k);
+                // "$0\r\n\r\n" needs all 6 bytes: no proper prefix holds a frame
+                prefix_lemma_opt::<$n>(data, k, false);
                 k += 1;
             }
         }
